@@ -60,6 +60,9 @@ QUOTES = [
     {'A': ('0.37', '0.38'), 'Bq': ('0.52', '0.55')},
     {'A': ('10.50', '10.50'), 'Bq': ('25.50', '25.50')},   # symmetric (bid = ask)
     {'A': ('98765.43', '98770.01'), 'Bq': ('0.0101', '0.0102')},   # very large / very small prices
+    # 6: sub-cent prices whose products with 30 / 50 shares fall within a quarter of a cent of a half unit
+    # (999.4975, 1000.5025, 999.4983, 1050.501): rounding to whole units must be done once, on the product itself
+    {'A': ('19.98995', '20.01005'), 'Bq': ('33.31661', '35.0167')},
 ]
 
 
@@ -294,7 +297,7 @@ class BrokerMachine(object):
                 raise HarnessError('pf_direct_sub on unknown portfolio in alphabet')
             if F(ev[2]) < 0 or ev[3] < self.pfs[ev[1]].clock:
                 expect_exc = ValueError
-        elif kind in ('submit', 'submit_labelled'):
+        elif kind in ('submit', 'submit_labelled', 'submit_backdated'):
             if ev[1] not in self.pfs:
                 expect_exc = KeyError
         elif kind == 'pf_sub_quoted':
@@ -328,6 +331,13 @@ class BrokerMachine(object):
                 from qstrader.execution.order import Order
                 self.submitted += 1
                 o = Order(self.now(), ev[2], int(ev[3]), order_id='o%d' % self.submitted)
+                b.submit_order(ev[1], o)
+            elif kind == 'submit_backdated':
+                # an order prepared earlier (its created_dt is the broker's start) and sent only now: its place in
+                # the queue is the place of its SUBMISSION
+                from qstrader.execution.order import Order
+                self.submitted += 1
+                o = Order(INSTANTS[0], ev[2], int(ev[3]), order_id='o%d' % self.submitted)
                 b.submit_order(ev[1], o)
             elif kind == 'submit_labelled':
                 # the user supplies his own order id and reuses the label (ids need not be unique)
@@ -416,7 +426,7 @@ class BrokerMachine(object):
             p.cash -= a
             p.clock = self.clock
             p.hist.append(('withdrawal', self.clock, a, Fraction(0), p.cash))
-        elif kind == 'submit':
+        elif kind in ('submit', 'submit_backdated'):
             self.pfs[ev[1]].pending.append((ev[2], int(ev[3]), 'o%d' % self.submitted))
         elif kind == 'submit_labelled':
             self.pfs[ev[1]].pending.append((ev[2], int(ev[3]), 'rebalance-%s' % ev[2]))
